@@ -419,6 +419,7 @@ def run(ctx):
     r6.need(3)
 
     forward_closure(ctx)
+    function_cells_carry_requirements(ctx)
 
 
 def _reach_avoiding(b, starts, avoid):
@@ -623,3 +624,42 @@ def forward_closure(ctx):
     if not ok:
         r11.fail('scope-parent-search/no-root-fallback', mirq.site(walkers[0], 0) if walkers else 'src/runtime_scope.rs', 'the lexical parent of a called function is searched along the lexical links of the calling scope only: called from a function value that escaped its creator (no lexical link), even a function declared at the root finds no parent, and a pending forward capture then panics ("ran out of scope parents at runtime")')
     r11.need(1)
+
+
+def function_cells_carry_requirements(ctx):
+    """R03.12: a function value may be used only where the forward declarations its body waits for are implemented.  The compiler
+    tracks that through the cell of the function: whoever declares a function cell (a `Declaration::Function` for a named function
+    or for a lambda) stores the function's own forward_requirements in the cell's Cell::Variable -- not an empty list -- so that
+    every later use of the cell inherits them (R03.7/R03.8 decide the use side)."""
+    from .lib import mirq
+    from .lib.facts import strip_generics, callee_name, op_place
+    mir = ctx.mir
+    r12 = ctx.rule('R03.12', 'every declared function cell carries the forward requirements of the function it holds')
+    for b in mir.bodies:
+        if b.file != 'src/compilation_scope.rs' or b.kind != 'fn':
+            continue
+        decls = [(i, j) for i, j, s in b.stmts() if s['k'] == 'assign' and s['rv']['k'] == 'agg' and s['rv'].get('v') == 'Function' and (s['rv'].get('adt') or '').endswith('Declaration')]
+        if not decls:
+            continue
+        cells = [(i, j, s) for i, j, s in b.stmts() if s['k'] == 'assign' and s['rv']['k'] == 'agg' and s['rv'].get('v') == 'Variable' and (s['rv'].get('adt') or '').endswith('Cell') and len(s['rv']['ops']) >= 2]
+        fn = b.nid.split('::')[-1]
+        # (a body may also reuse the cell of a forward declaration: extending that cell's list with the requirements counts)
+        for i, j, s in cells:
+            p = op_place(s['rv']['ops'][1])
+            sl = mirq.backslice(b, [p['l']]) if p is not None else set()
+            from_func = False
+            for i2, j2, s2 in b.stmts():
+                if s2['k'] == 'assign' and s2['place']['l'] in sl and not s2['place']['p']:
+                    pl = s2['rv'].get('place') or (op_place(s2['rv']['op']) if isinstance(s2['rv'].get('op'), dict) else None)
+                    if pl is not None and any(isinstance(e, dict) and e.get('n') == 'forward_requirements' for e in pl['p']):
+                        from_func = True
+            for cbb, ct in b.calls():
+                if not ct['dest']['p'] and ct['dest']['l'] in sl:
+                    for a in ct['args']:
+                        q = op_place(a)
+                        if q is not None and any(isinstance(e, dict) and e.get('n') == 'forward_requirements' for e in q['p']):
+                            from_func = True
+            r12.inst({'fn': fn, 'cell_built_at': mirq.site(b, i, j), 'requirements_from_the_function': from_func}, ok=from_func, kind=(b.nid, i, j))
+            if not from_func:
+                r12.fail('%s/cell-without-requirements' % fn, mirq.site(b, i, j), 'the cell of a declared function is created with a requirement list that does not come from the function: a lambda whose body calls a forward-declared function can be called before the implementation exists (forward fn f(x: int)->int; let g = ()->{f(1)}; let y = g(); fn f(x: int)->int{x} is accepted and instantiation panics: access to uninitialized cell)')
+    r12.need(2)
